@@ -245,6 +245,20 @@ def run(ctx):
         isolate.warm(sorted(ampgen.PID))
         depth = 3 if ctx.thorough else 2
         bfs(ctx, "call-histories", run_history, depth, depth, "history", payload_of=lambda h: {"history": [list(o) for o in h]}, chunk=8, isolate=True)
+        if not ctx.thorough:
+            # the classic shape of a stale cache: a call, a different call, the first call again (all 380 of them)
+            aba = [(tuple(a), tuple(b), tuple(a)) for a in OPS for b in OPS if a != b]
+            ctx.log(f"{len(aba)} histories of the form (a, b, a)")
+            from mc.bfs import _run_chunk
+            n = 0
+            for res in pmap(_run_chunk, [(run_history, aba[i:i + 4], True) for i in range(0, len(aba), 4)], ctx.workers):
+                for h, _canon, fails, _en, outcome in res:
+                    n += 1
+                    ctx.outcomes.add(outcome)
+                    for sig, detail in fails:
+                        ctx.fail("history", {"history": [list(o) for o in h]}, sig, detail, weight=3)
+            ctx.count(transitions=3 * n, traces=n)
+            ctx.part("aba-histories", histories=n, complete=True)
         check_seeds(ctx)
         ctx.sample({"history": [OPS[1], OPS[14]], "files": {k: v[:200] for k, v in FILES.items()}})
         ctx.extra["alphabet"] = [" ".join(o) for o in OPS]
